@@ -617,13 +617,17 @@ func getReferenceModificationsFromColumn(dbModel *model.DatabaseModel, table, uu
 		}
 		return getReferenceModificationsFromSet(dbModel, table, uuid, column, v, oldSet)
 	case ovsdb.OvsMap:
-		return getReferenceModificationsFromMap(dbModel, table, uuid, column, v)
+		var oldMap ovsdb.OvsMap
+		if old != nil {
+			oldMap = old.(ovsdb.OvsMap)
+		}
+		return getReferenceModificationsFromMap(dbModel, table, uuid, column, v, oldMap)
 	}
 	return nil
 }
 
-func getReferenceModificationsFromMap(dbModel *model.DatabaseModel, table, uuid, column string, value ovsdb.OvsMap) database.References {
-	if len(value.GoMap) == 0 {
+func getReferenceModificationsFromMap(dbModel *model.DatabaseModel, table, uuid, column string, modify, old ovsdb.OvsMap) database.References {
+	if len(modify.GoMap) == 0 {
 		return nil
 	}
 
@@ -634,32 +638,62 @@ func getReferenceModificationsFromMap(dbModel *model.DatabaseModel, table, uuid,
 		return nil
 	}
 
+	// the map after the modification: the pairs of 'modify' are added,
+	// replace the value of an existing key, or are removed when identical
+	updated := make(map[interface{}]interface{}, len(old.GoMap)+len(modify.GoMap))
+	for k, v := range old.GoMap {
+		updated[k] = v
+	}
+	for k, v := range modify.GoMap {
+		if ov, ok := old.GoMap[k]; ok && ov == v {
+			delete(updated, k)
+		} else {
+			updated[k] = v
+		}
+	}
+	// a row references another row from this column, as key or as value,
+	// whatever the number of pairs that do: only the rows that start or stop
+	// being referenced are a modification
 	from := uuid
-	keySpec := database.ReferenceSpec{ToTable: keyRefTable, FromTable: table, FromColumn: column, FromValue: false}
-	valueSpec := database.ReferenceSpec{ToTable: valueRefTable, FromTable: table, FromColumn: column, FromValue: true}
-
 	refs := database.References{}
-	for k, v := range value.GoMap {
-		if keyRefTable != "" {
-			switch to := k.(type) {
-			case ovsdb.UUID:
-				if _, ok := refs[keySpec]; !ok {
-					refs[keySpec] = database.Reference{to.GoUUID: []string{from}}
-				} else if _, ok := refs[keySpec][to.GoUUID]; !ok {
-					refs[keySpec][to.GoUUID] = append(refs[keySpec][to.GoUUID], from)
+	addChanged := func(spec database.ReferenceSpec, before, after map[string]struct{}) {
+		for to := range before {
+			if _, ok := after[to]; !ok {
+				if _, ok := refs[spec]; !ok {
+					refs[spec] = database.Reference{}
 				}
+				refs[spec][to] = []string{from}
 			}
 		}
-		if valueRefTable != "" {
-			switch to := v.(type) {
-			case ovsdb.UUID:
-				if _, ok := refs[valueSpec]; !ok {
-					refs[valueSpec] = database.Reference{to.GoUUID: []string{from}}
-				} else if _, ok := refs[valueSpec][to.GoUUID]; !ok {
-					refs[valueSpec][to.GoUUID] = append(refs[valueSpec][to.GoUUID], from)
+		for to := range after {
+			if _, ok := before[to]; !ok {
+				if _, ok := refs[spec]; !ok {
+					refs[spec] = database.Reference{}
 				}
+				refs[spec][to] = []string{from}
 			}
 		}
+	}
+	referenced := func(m map[interface{}]interface{}, values bool) map[string]struct{} {
+		uuids := map[string]struct{}{}
+		for k, v := range m {
+			atom := k
+			if values {
+				atom = v
+			}
+			if to, ok := atom.(ovsdb.UUID); ok {
+				uuids[to.GoUUID] = struct{}{}
+			}
+		}
+		return uuids
+	}
+	if keyRefTable != "" {
+		keySpec := database.ReferenceSpec{ToTable: keyRefTable, FromTable: table, FromColumn: column, FromValue: false}
+		addChanged(keySpec, referenced(old.GoMap, false), referenced(updated, false))
+	}
+	if valueRefTable != "" {
+		valueSpec := database.ReferenceSpec{ToTable: valueRefTable, FromTable: table, FromColumn: column, FromValue: true}
+		addChanged(valueSpec, referenced(old.GoMap, true), referenced(updated, true))
 	}
 
 	return refs
